@@ -438,3 +438,17 @@ func verifLemmaOrder(a, b, c Endpoint) (irrefl, trans, total bool) {
 //@ func (p *PacketSource) NextPacket() (Packet, error)
 //@   props C16
 //@   ensures result1 != nil ==> result0 == nil
+
+// ---- NewPacket: data ownership (C04) ------------------------------------------------------------------------------
+
+// Unless NoCopy is set an eager packet is decoded from bytes that are not the caller's array, of the same length
+// and (checked at the first and the last byte) the same contents; with NoCopy it is the caller's slice itself.
+// (The pooled block is whatever sync.Pool hands out: that it is not the caller's array is an assumption about
+// sync.Pool and its users, so the array inequality is claimed for the non-pooled copy - which is also the copy a
+// pooled decode must fall back to for packets larger than a pool block.)
+//@ func NewPacket(data []byte, firstLayerDecoder Decoder, options DecodeOptions) (p Packet)
+//@   props C04
+//@   at initialDecode 0: assert len(arg0.packet.data) == len(entry_data)
+//@   at initialDecode 0: assert !options.NoCopy && (!options.Pool || len(entry_data) > 1500) && len(entry_data) > 0 ==> arg0.packet.data.arr != entry_data.arr
+//@   at initialDecode 0: assert options.NoCopy ==> arg0.packet.data.arr == entry_data.arr && arg0.packet.data.off == entry_data.off
+//@   at initialDecode 0: assert len(entry_data) > 0 ==> arg0.packet.data[0] == old(entry_data[0]) && arg0.packet.data[len(entry_data) - 1] == old(entry_data[len(entry_data) - 1])
